@@ -4,9 +4,11 @@ import (
 	"context"
 	"errors"
 	"fmt"
+	"io"
 	"net"
 	"os"
 	"sort"
+	"syscall"
 	"testing"
 	"testing/synctest"
 	"time"
@@ -25,6 +27,10 @@ type scenario struct {
 	Event   string        `json:"event"`   // none | cancel | deadline | close | close2
 	TC      time.Duration `json:"tc"`
 	Cfg     int           `json:"cfg"` // client logging configuration (cli.NewCfg)
+	// Fault > 0: at that instant the pending read on the connection fails (a passing error: an ICMP error reported on
+	// the socket, an expired read deadline, the interface going down); nothing is read afterwards, so later traffic of
+	// the script is left out.  The call goes on like any other.
+	Fault time.Duration `json:"fault,omitempty"`
 }
 
 func fam(name string) cli.Family {
@@ -110,8 +116,30 @@ func script(sc scenario, f cli.Family, budget time.Duration) []timed {
 	case "close", "close2", "close-err":
 		add(sc.TC, "close")
 	}
+	if sc.Fault > 0 {
+		kept := ev[:0]
+		for _, e := range ev {
+			if len(e.kind) < 6 || e.kind[:6] != "inject" || e.at < sc.Fault {
+				kept = append(kept, e)
+			}
+		}
+		ev = kept
+		add(sc.Fault, "fault")
+	}
 	sort.SliceStable(ev, func(i, j int) bool { return ev[i].at < ev[j].at })
 	return ev
+}
+
+func faultErr(k int) error {
+	switch k % 4 {
+	case 0:
+		return &net.OpError{Op: "read", Net: "udp", Err: os.NewSyscallError("recvfrom", syscall.ECONNREFUSED)}
+	case 1:
+		return os.ErrDeadlineExceeded
+	case 2:
+		return &net.OpError{Op: "read", Net: "packet", Err: syscall.ENETDOWN}
+	}
+	return io.ErrUnexpectedEOF
 }
 
 func run(t *testing.T, sc scenario) (out outcome) {
@@ -187,6 +215,10 @@ func run(t *testing.T, sc scenario) (out outcome) {
 			}
 			synctest.Wait()
 			switch {
+			case e.kind == "fault":
+				if !closed {
+					conn.Inject(sconn.Datagram{Err: faultErr(sc.Cfg + sc.N)})
+				}
 			case e.kind == "cancel":
 				cancel()
 			case e.kind == "close":
@@ -256,7 +288,7 @@ func judge(r *mon.Rec, t *testing.T, sc scenario) {
 		what string // response | ctx | closed | noresp
 	}
 	e := exp{budget, "noresp"}
-	hasAccept := sc.Traffic == "accept" || sc.Traffic == "reject+accept"
+	hasAccept := (sc.Traffic == "accept" || sc.Traffic == "reject+accept") && (sc.Fault == 0 || sc.TA < sc.Fault)
 	if hasAccept && sc.TA < e.at {
 		e = exp{sc.TA, "response"}
 	}
@@ -362,7 +394,10 @@ func judge(r *mon.Rec, t *testing.T, sc scenario) {
 		}
 		return "after"
 	}
-	r.Shape(fmt.Sprintf("%s/%v/%d/%s/%s/%s/%s", sc.Fam, sc.T, sc.N, sc.Traffic, pos(sc.TA), sc.Event, pos(sc.TC)), sc.Traffic != "silence" || sc.Event != "none")
+	r.Shape(fmt.Sprintf("%s/%v/%d/%s/%s/%s/%s/%s", sc.Fam, sc.T, sc.N, sc.Traffic, pos(sc.TA), sc.Event, pos(sc.TC), pos(sc.Fault-1)), sc.Traffic != "silence" || sc.Event != "none")
+	if sc.Fault > 0 {
+		r.Count("scenarios_with_a_read_fault", 1)
+	}
 	r.Count("datagrams_injected", o.injected)
 	r.Count("outcome."+e.what, 1)
 	if r.NSamples() < 6 && sc.N == 3 && sc.Traffic != "silence" && sc.Event != "none" {
@@ -402,7 +437,15 @@ func grid(quick bool) []scenario {
 								if quick && ev != "none" && tr != "silence" && (int(tc)+int(ta)+n)%3 != 0 {
 									continue // quick: a deterministic third of the (traffic x event instant) products
 								}
-								out = append(out, scenario{fm, T, n, tr, ta, ev, tc, len(out) % cli.NCfg})
+								out = append(out, scenario{Fam: fm, T: T, N: n, Traffic: tr, TA: ta, Event: ev, TC: tc, Cfg: len(out) % cli.NCfg})
+								// the same with a read fault at some instant (not for every product: silence, one
+								// acceptable response, rejected streams; no event, cancel, close)
+								if (tr == "silence" || tr == "accept" || tr == "reject-T/2" || tr == "instant-reply") && (ev == "none" || ev == "cancel" || ev == "close") {
+									tf := instants[(len(out)+n)%len(instants)]
+									if tf != ta && tf != tc && (!quick || len(out)%2 == 0) {
+										out = append(out, scenario{Fam: fm, T: T, N: n, Traffic: tr, TA: ta, Event: ev, TC: tc, Cfg: len(out) % cli.NCfg, Fault: tf})
+									}
+								}
 							}
 						}
 					}
